@@ -6,7 +6,7 @@ from dataclasses import dataclass, field
 
 VERIF = os.path.dirname(os.path.dirname(os.path.abspath(__file__)))
 HARNESS = os.path.join(VERIF, "harness")
-REPO = "/repo"
+REPO = os.environ.get("VERIF_REPO", "/repo")      # development only: a scratch worktree for trials; registered commands never set it
 
 STUBS = {
     # short name -> (target path, replacement path)
@@ -90,6 +90,10 @@ class Scratch:
     def prepare(self, jobs):
         os.makedirs(self.crate)
         shutil.copy(os.path.join(HARNESS, "Cargo.toml"), self.crate)
+        if REPO != "/repo":
+            ct = os.path.join(self.crate, "Cargo.toml")
+            txt = open(ct).read().replace('path = "/repo"', 'path = "%s"' % REPO)
+            open(ct, "w").write(txt)
         shutil.copy(os.path.join(REPO, "Cargo.lock"), os.path.join(self.crate, "Cargo.lock"))
         shutil.copytree(os.path.join(HARNESS, "src"), os.path.join(self.crate, "src"), ignore=shutil.ignore_patterns("bin"))
         with open(os.path.join(self.crate, "src", "gen.rs"), "w") as f:
@@ -378,13 +382,21 @@ def run_jobs(scr: Scratch, jobs, nworkers=16, mem_budget_gb=56, seed=0, progress
 def build_replayer(scr: Scratch):
     """native build of the harness crate (real code, no stubs) for counterexample replay"""
     tdir = os.path.join(scr.dir, "native")
+    hdir = HARNESS
+    if REPO != "/repo":
+        # development only (VERIF_REPO): build a copy of the harness against the scratch worktree
+        hdir = os.path.join(scr.dir, "harness-dev")
+        shutil.copytree(HARNESS, hdir, ignore=shutil.ignore_patterns("target"))
+        ct = os.path.join(hdir, "Cargo.toml")
+        txt = open(ct).read().replace('path = "/repo"', 'path = "%s"' % REPO)
+        open(ct, "w").write(txt)
     p = subprocess.run(["cargo", "build", "--offline", "--bin", "replay", "--target-dir", tdir],
-                       cwd=HARNESS, stdout=subprocess.PIPE, stderr=subprocess.STDOUT, env=env_base(), text=True)
+                       cwd=hdir, stdout=subprocess.PIPE, stderr=subprocess.STDOUT, env=env_base(), text=True)
     exe = os.path.join(tdir, "debug", "replay")
     if p.returncode != 0 or not os.path.exists(exe):
         return None, p.stdout[-2000:]
     p2 = subprocess.run(["cargo", "build", "--offline", "--release", "--bin", "replay", "--target-dir", tdir],
-                        cwd=HARNESS, stdout=subprocess.PIPE, stderr=subprocess.STDOUT, env=env_base(), text=True)
+                        cwd=hdir, stdout=subprocess.PIPE, stderr=subprocess.STDOUT, env=env_base(), text=True)
     exe2 = os.path.join(tdir, "release", "replay")
     return (exe, exe2 if os.path.exists(exe2) else None), ""
 
